@@ -466,7 +466,7 @@ func GenModel(t *rapid.T, maxTargets int, emit bool) *Model {
 			tg.Default = true
 			hasDefault[tg.Pkg] = true
 		}
-		tg.Body = rapid.SampledFrom([]int{0, 1, 2, 3, 4, 5, 6, 7, 8, 0, 5}).Draw(t, "body")
+		tg.Body = rapid.SampledFrom([]int{0, 1, 2, 3, 4, 5, 6, 7, 8, 9, 5, 9}).Draw(t, "body")
 		if tg.Body == 7 && tg.Pkg != 0 {
 			tg.Body = 1 // the flag template lives in the root package only
 		}
